@@ -85,6 +85,14 @@ class DetLoop(asyncio.AbstractEventLoop):
         w = self.world
         old_pid = w.current_pid
         w.current_pid = self.pid
+        xp = getattr(self, "xp", None)
+        if xp is not None:
+            # module-level "current experiment/workspace" of the process owning this loop
+            import experimaestro.scheduler.base as SB
+            from experimaestro.scheduler.workspace import Workspace
+
+            SB.experiment.CURRENT = xp
+            Workspace.CURRENT = xp.workspace
         old = events._get_running_loop()
         events._set_running_loop(None)
         events._set_running_loop(self)
@@ -176,6 +184,9 @@ class World:
         self.fswatchers = []
         self.reverse_sets = False
         self.state_log = []
+        self.fs_events = False  # deliver filesystem-watcher events (multi-process token model)
+        self.fs_snapshot = {}
+        self.reqs = {}  # job key -> token request (capacity monitor across schedulers)
 
     # --- events
     def add(self, label, fire, enabled=None, owner=None):
@@ -202,6 +213,8 @@ class World:
             for loop in self.loops.values():
                 if loop.alive:
                     loop.drain()
+        if self.fswatchers and self.fs_events:
+            self.fs_scan(author=e.owner.pid if e.owner is not None else None)
 
     def new_loop(self, pid):
         loop = DetLoop(self, pid)
@@ -216,6 +229,57 @@ class World:
         self.events = [e for e in self.events if e.owner is not loop]
         for path in [p for p, o in self.iplocks.items() if o == loop.pid]:
             del self.iplocks[path]
+
+    # --- filesystem watching (token directories)
+    def fs_scan(self, author=None):
+        """Turns the changes of the watched directories since the last scan
+        into pending watcher events, one per change and per watching process
+        (watchdog reports a process's own changes too: those are delivered
+        at once - they find the change already reflected in the instance's
+        cache - so that only the notifications crossing process boundaries
+        are schedule choices)"""
+
+        class FsEvent:
+            def __init__(self, p):
+                self.src_path = str(p)
+                self.is_directory = False
+
+        for (pid, handler, path) in list(self.fswatchers):
+            loop = self.loops.get(pid)
+            if loop is None or not loop.alive:
+                continue
+            key = (pid, str(path))
+            old = self.fs_snapshot.get(key, {})
+            new = {}
+            if path.is_dir():
+                for f in sorted(path.iterdir()):
+                    if f.name.endswith(".lock"):
+                        continue
+                    try:
+                        new[f.name] = f.read_text()
+                    except OSError:
+                        pass
+            self.fs_snapshot[key] = new
+            pending = []
+            for name in new:
+                if name not in old:
+                    pending.append((("fs", pid, "created", name), (lambda h=handler, p=path / name: h.on_created(FsEvent(p)))))
+                elif old[name] != new[name]:
+                    pending.append((("fs", pid, "modified", name), (lambda h=handler, p=path / name: h.on_modified(FsEvent(p)))))
+            for name in old:
+                if name not in new:
+                    pending.append((("fs", pid, "deleted", name), (lambda h=handler, p=path / name: h.on_deleted(FsEvent(p)))))
+            for label, fire in pending:
+                if author is not None and author == pid:
+                    old_pid = self.current_pid
+                    self.current_pid = pid
+                    try:
+                        fire()
+                    finally:
+                        self.current_pid = old_pid
+                    loop.drain()
+                else:
+                    self.add(label, fire, owner=loop)
 
     # --- inter-process locks
     def lock_free(self, path, pid):
